@@ -63,13 +63,14 @@ def shards(tier, seed):
     for name in specs():
         out.append({"part": "sample", "gen": name, "seed": seeds[-1]})
     out.append({"part": "cascade"})
+    out.append({"part": "xproc", "seed": seeds[-1]})
     return out
 
 
 def run_shard(shard):
     import logging
     logging.disable(logging.CRITICAL)
-    return {"bfs": _bfs, "sample": _sample, "cascade": _cascade, "hist": _hist}[shard["part"]](shard)
+    return {"bfs": _bfs, "sample": _sample, "cascade": _cascade, "hist": _hist, "xproc": _xproc}[shard["part"]](shard)
 
 
 def replay(case):
@@ -115,12 +116,13 @@ def _bfs(shard):
         k = histories.state_hash(g)
         prev = by_t.setdefault(t + op, (k, list(h) + [op]))
         if prev[0] != k:
-            res.append((f"state/{shard['gen']}", f"{shard['gen']} seed={seed}: state after {t + op} samples depends on the chunking: {prev[1]} vs {list(h) + [op]}"))
+            res.append((f"state/{shard['gen']}", f"{shard['gen']} seed={seed}: state after {t + op} samples depends on the chunking: {prev[1]} vs {list(h) + [op]}", {"other": prev[1]}))
         return res
 
     ex = histories.Explorer(lambda: make0(seed), apply, enabled, canon, invariant).run()
-    for key, msg, hist in ex.failures:
-        out["failures"].append(fw.fail(key, msg, dict(case0, hist=hist)))
+    for item in ex.failures:
+        key, msg, hist = item[:3]
+        out["failures"].append(fw.fail(key, msg, dict(case0, hist=hist, **(item[3] if len(item) > 3 else {}))))
     out["evals"] = ex.transitions
     out["nontrivial"] = ex.transitions
     out["extra"] = {"states": ex.states, "transitions": ex.transitions, "traces_validated_against_impl": ex.replayed,
@@ -144,6 +146,13 @@ def _hist(case):
             fails.append(fw.fail(f"stream/{case['gen']}/n={n}", f"history {case['hist']}: block of {n} at offset {t} = {obs.tolist()} != {ref[t:t + n].tolist()}", case))
             break
         t += n
+    if case.get("other") is not None and not fails:
+        # two chunkings of the same number of samples must leave the generator in the same state
+        g2 = make0(case["seed"])
+        for n in case["other"]:
+            g2.get_series(n)
+        if histories.state_hash(g) != histories.state_hash(g2):
+            fails.append(fw.fail(f"state/{case['gen']}", f"state after {t} samples depends on the chunking: {case['hist']} vs {case['other']}", case))
     return {"evals": 1, "nontrivial": 1, "failures": fails, "samples": []}
 
 
@@ -223,4 +232,42 @@ def _cascade(shard):
                         seen.add(f"cascade/{si}")
                         out["failures"].append(fw.fail(f"cascade/{si}", f"coefficient set {si}: input {x.tolist()} split at {split}: cascade {got.tolist()} (state {zi[:, 0].tolist()}) != direct-form reference {want.tolist()} (state {[z[0] for z in zr]})", dict(shard)))
     out["samples"].append({"cascade inputs": "{-2,0,1}^n, n<=6, all split points", "sections": [s[0].shape[0] for s in sets]})
+    return out
+
+
+XPROC = r"""
+import sys, hashlib, json, logging
+logging.disable(logging.CRITICAL)
+sys.path.insert(0, sys.argv[1])
+from mc import framework as fw
+fw.pin_env("1")
+import numpy as np
+from checks.c17 import specs
+out = {}
+for name, mk in specs().items():
+    for s in (0, int(sys.argv[2])):
+        out[f"{name}/{s}"] = hashlib.sha1(np.asarray(mk(s).get_series(24)).tobytes()).hexdigest()[:16]
+print(json.dumps(out))
+"""
+
+
+def _xproc(shard):
+    """Two instances with the same seed in DIFFERENT interpreter processes (different PYTHONHASHSEED): same samples."""
+    import json, os, subprocess, sys
+
+    out = {"evals": 0, "nontrivial": 0, "failures": [], "samples": [], "extra": {}}
+    digests = []
+    for hs in ("1", "2", "random"):
+        env = dict(os.environ, PYTHONHASHSEED=hs, VERIF_ROOT=fw.ROOT)
+        p = subprocess.run([sys.executable, "-c", XPROC, fw.ROOT, str(shard["seed"])], capture_output=True, text=True, env=env, cwd=fw.ROOT, timeout=1800)
+        if p.returncode != 0:
+            raise RuntimeError(f"cross-process worker failed: {p.stderr[-1500:]}")
+        digests.append(json.loads(p.stdout.splitlines()[-1]))
+    for k in digests[0]:
+        out["evals"] += 1
+        out["nontrivial"] += 1
+        vals = [d[k] for d in digests]
+        if len(set(vals)) != 1:
+            out["failures"].append(fw.fail(f"xproc/{k.split('/')[0]}", f"generator {k.rsplit('/', 1)[0]} with seed {k.rsplit('/', 1)[1]} produces different samples in different interpreter processes (PYTHONHASHSEED 1, 2, random): digests {vals}", dict(shard)))
+    out["samples"].append({"xproc": "same seed in 3 interpreter processes with different hash randomisation"})
     return out
